@@ -877,9 +877,24 @@ class Discharger:
             les = le_facts(e.pc)
             ln = ('len', base)
 
-            def bounded(x):
+            def norm(t):
+                # `a.checked_sub(b)?` / `.unwrap()` is a - b (the subtraction did not wrap)
+                if isinstance(t, tuple) and t:
+                    if t[0] == 'some_of' and isinstance(t[1], tuple) and t[1][:1] == ('call',) and t[1][1].split('::')[-1] == 'checked_sub' \
+                            and len(t[1]) == 4:
+                        return ('sub', norm(t[1][2]), norm(t[1][3]))
+                    return tuple(norm(x) if isinstance(x, tuple) else x for x in t)
+                return t
+            lo, hi = norm(lo), norm(hi)
+
+            def bounded(x, pc_=None):
                 """x <= len(base)"""
-                if x == ('lit', 0) or x == ln or (x, ln) in les:
+                if x[0] == 'ite':
+                    # a bound chosen by a condition: every feasible choice is bounded (under its own condition)
+                    cs = [(c_, l_) for c_, l_ in term_cases(x) if sat(And(e.pc, c_)) is not None]
+                    return bool(cs) and all(bounded(l_, And(e.pc, c_)) for c_, l_ in cs)
+                les_ = les if pc_ is None else le_facts(pc_)
+                if x == ('lit', 0) or x == ln or (x, ln) in les_:
                     return True
                 if enum_index_over(x, base):
                     return True
